@@ -45,4 +45,74 @@ class Determinism(SysTarget):
         return None
 
 
-TARGETS = {"codebasin.finder:ParserState.get_setmap": Determinism("determinism", ("multi", "dupes", "links", "mixed", "linkinc", "redefine"), quick_n=4, thorough_n=60)}
+class MetricSeeds:
+    """the metric functions on fixed tables, each in 8 fresh interpreters with different PYTHONHASHSEED: identical
+    floating-point results (the iteration order of a set of platform names must not reach a floating-point sum), and
+    the members of a duplicates group in the same order"""
+    proved = False
+    role = "bounded check: metrics and duplicates listing under 8 hash seeds"
+
+    TABLES = [
+        {"a,b,c": 3, "b": 2, "c": 5},
+        {"a": 1, "b": 2, "c": 4, "a,b": 3, "b,c": 1},
+        {"p0,p1": 7, "p2": 1, "p3,p0": 2, "p1,p2,p3": 5, "p4": 11, "p4,p0": 3},
+    ]
+
+    def bound(self, tier):
+        return f"{len(self.TABLES)} fixed tables x 8 hash seeds (divergence, average coverage, coverage) + one duplicates listing"
+
+    def inputs(self, tier, seed):
+        for k in range(len(self.TABLES) + 1):
+            yield {"k": k}
+
+    def nontrivial(self, inp):
+        return True
+
+    def check(self, inp):
+        import subprocess
+        import sys
+        import tempfile
+        import shutil
+        k = inp["k"]
+        env0 = dict(os.environ)
+        env0["PYTHONPATH"] = cli.REPO
+        env0["PYTHONWARNINGS"] = "ignore"
+        if k < len(self.TABLES):
+            t = self.TABLES[k]
+            prog = ("from codebasin import report\n"
+                    f"m = {{frozenset(k.split(',')): v for k, v in {t!r}.items()}}\n"
+                    "print(repr(report.divergence(m)), repr(report.average_coverage(m)), repr(report.coverage(m)))\n")
+            outs = {}
+            for hs in range(8):
+                env = dict(env0)
+                env["PYTHONHASHSEED"] = str(hs)
+                p = subprocess.run([sys.executable, "-c", prog], env=env, capture_output=True, text=True, timeout=60)
+                outs.setdefault(p.stdout.strip() or p.stderr[-200:], []).append(hs)
+            if len(outs) != 1:
+                return {"expected": "one result for every PYTHONHASHSEED", "observed": {o: hs for o, hs in outs.items()},
+                        "klass": "determinism:metrics-under-hash-seeds", "table": t}
+            return None
+        root = os.path.realpath(tempfile.mkdtemp(prefix="cbi_c14m_"))
+        try:
+            for n in ("x1.h", "x2.h", "x3.h", "sub/x4.h"):
+                os.makedirs(os.path.dirname(os.path.join(root, n)), exist_ok=True)
+                with open(os.path.join(root, n), "w") as fh:
+                    fh.write("int same;\n")
+            prog = ("import io\nfrom codebasin import CodeBase, report\n"
+                    f"s = io.StringIO()\nreport.duplicates(CodeBase({root!r}), s)\nprint(s.getvalue())\n")
+            outs = {}
+            for hs in range(8):
+                env = dict(env0)
+                env["PYTHONHASHSEED"] = str(hs)
+                p = subprocess.run([sys.executable, "-c", prog], env=env, capture_output=True, text=True, timeout=60)
+                outs.setdefault(p.stdout.strip() or p.stderr[-200:], []).append(hs)
+            if len(outs) != 1:
+                return {"expected": "one listing for every PYTHONHASHSEED", "observed": {o[-120:]: hs for o, hs in outs.items()},
+                        "klass": "determinism:duplicates-listing-under-hash-seeds"}
+            return None
+        finally:
+            shutil.rmtree(root, ignore_errors=True)
+
+
+TARGETS = {"codebasin.report:divergence": MetricSeeds(),
+           "codebasin.finder:ParserState.get_setmap": Determinism("determinism", ("multi", "dupes", "links", "mixed", "linkinc", "redefine"), quick_n=4, thorough_n=60)}
